@@ -1025,6 +1025,24 @@ def sc_c19_flood(name, seed, mtu, n):
     return Scenario(name, s.lines)
 
 
+def sc_c19_floods(name, seed, mtu):
+    """several large floods with other stations' commands in between (ignored while a mapper is active): what the
+    second flood retains is bounded by what the first one did"""
+    rng = random.Random(seed)
+    s = new_script(mtu=mtu)
+    s.rx(1, reset(M1))
+    s.rx(1, discover(0, M1, gen=1, seq=1))
+    for r in range(3):
+        s.flood(1, 10000, (seed + 7 * r) & 0xFFFF)
+        for f in rng.sample([discover(0, X, gen=9, seq=2), discover(1, M2, gen=8, seq=3), emit(X, OWN, [(1, 0, OWN, PEER)], seq=4),
+                             query_large(X, OWN, 0x0E, 0, seq=5), generic(0, OP_CHARGE, X, OWN), hello(0, PEER, 3, M1, M1),
+                             discover(0, M1, gen=1, seq=6)], 3):
+            s.rx(1, f)
+    s.rx(1, reset(M1))
+    s.rx(1, reset(M1))
+    return Scenario(name, s.lines)
+
+
 def sc_c19_idem(name, seed, mtu):
     rng = random.Random(seed)
     s = new_script(mtu=mtu, wifi=seed & 1)
@@ -1123,6 +1141,8 @@ def campaign_c19(seed, tier):
         scs.append(sc_c19_flood("c19-flood-%d" % mtu, rng.randrange(1 << 30), mtu, n))
     for i in range(13 if tier == "quick" else 300):
         scs.append(sc_c19_idem("c19-idem-%d" % i, rng.randrange(1 << 30), MTUS[i % 3]))
+    for i in range(2 if tier == "quick" else 20):
+        scs.append(sc_c19_floods("c19-floods-%d" % i, rng.randrange(1 << 30), MTUS[i % 3]))
     for i in range(6 if tier == "quick" else 200):
         scs.append(sc_c19_faulty("c19-faulty-%d" % i, rng.randrange(1 << 30), [576, 1500, 590][i % 3]))
     for i in range(6 if tier == "quick" else 120):
